@@ -31,7 +31,7 @@ def run(ck):
         "the callsite has a matcher, and keeps the scope stack in a ThreadLocal. The grammar, Display/parse round trips, "
         "tie-breaking and value matchers are input-quantified and NOT decided.")
     ck.assumptions += ["slice::binary_search/insert semantics", "Dynamics::matcher deliberately folds over all caring directives (not covered)"]
-    ck.rule("C11.R1", "directive vector mutated only by DirectiveSet::add at the binary_search position", floor=4)
+    ck.rule("C11.R1", "directive vector mutated only by DirectiveSet::add at the binary_search position; max_level kept an upper bound", floor=5)
     ck.rule("C11.R2", "first match in storage order decides; no match disables; siblings agree", floor=4)
     ck.rule("C11.R3", "prefix direction and field-name constraints", floor=3)
     ck.rule("C11.R4", "Ord: target length first, reversed (most specific first)", floor=4)
@@ -43,6 +43,10 @@ def run(ck):
     r4(ck, F)
     r5(ck, F)
     r6(ck, F)
+    # the cached max level gates Targets and EnvFilter before any directive is looked at (C08.R4's rule, instantiated):
+    # a directive that overwrites an equal one must still raise it, or the most specific match is never consulted
+    from rules import C08
+    C08.directive_add_rule(ck, F, rid="C11.R1")
 
 
 def r1(ck, F):
